@@ -126,6 +126,8 @@ def run(prop, tier, replay=None):
                     diffs.append(f_)
             if o["cwd"] != ref["cwd"]:
                 diffs.append("cwd")
+            if o.get("optind") != ref.get("optind"):
+                diffs.append("optind")
             if o["stack"] != ref["stack"]:
                 diffs.append("dirstack")
             if not o["env_ok"]:
